@@ -221,9 +221,9 @@ def gen_asm_source(rng, sections=None, random_bytes_p=0.35):
     return "\n".join(out) + "\n", meta
 
 
-def assemble(src: str) -> bytes | None:
+def assemble(src: str, bits: int = 64) -> bytes | None:
     """GNU as on `src`; returns the ELF object bytes, or None if as rejects it."""
-    key = util.digest(src)
+    key = util.digest([src, bits])
     if key in _AS_CACHE:
         return _AS_CACHE[key]
     d = os.path.join(util.scratch_root(), f"as-{os.getpid()}")
@@ -235,7 +235,7 @@ def assemble(src: str) -> bytes | None:
         os.remove(op)
     except FileNotFoundError:
         pass
-    p = subprocess.run(["as", "--64", "-o", op, sp], stdout=subprocess.PIPE, stderr=subprocess.PIPE)
+    p = subprocess.run(["as", f"--{bits}", "-o", op, sp], stdout=subprocess.PIPE, stderr=subprocess.PIPE)
     data = None
     if p.returncode == 0 and os.path.isfile(op):
         with open(op, "rb") as fh:
@@ -434,3 +434,34 @@ def gen_listing_repeated(rng):
 def random_copy(rng):
     import random
     return random.Random(rng.getrandbits(64))
+
+
+def make_archive(members: list) -> bytes | None:
+    """A static archive (ar rc) of the given object files: objdump disassembles every member."""
+    d = os.path.join(util.scratch_root(), f"as-{os.getpid()}", "ar")
+    import shutil
+    shutil.rmtree(d, ignore_errors=True)
+    os.makedirs(d)
+    names = []
+    for i, m in enumerate(members):
+        n = f"m{i}.o"
+        with open(os.path.join(d, n), "wb") as fh:
+            fh.write(m)
+        names.append(n)
+    p = subprocess.run(["ar", "rcD", "lib.a"] + names, cwd=d, stdout=subprocess.PIPE, stderr=subprocess.PIPE)
+    if p.returncode != 0:
+        return None
+    with open(os.path.join(d, "lib.a"), "rb") as fh:
+        return fh.read()
+
+
+def gen_asm_source_32(rng):
+    """A small i386 source (for `as --32`): objdump accepts it like any other object."""
+    regs = ["eax", "ebx", "ecx", "edx", "esi", "edi", "ebp"]
+    out = ["\t.text", "f0:"]
+    for _ in range(rng.randrange(3, 12)):
+        k = rng.randrange(7)
+        r, q = "%" + rng.choice(regs), "%" + rng.choice(regs)
+        out.append({0: f"\tpush {r}", 1: f"\tmov {r},{q}", 2: f"\tmov $0x{rng.randrange(1, 255):x},{r}", 3: "\tcall f0", 4: f"\tadd 0x8({r}),{q}",
+                    5: "\tret", 6: f"\tlea 0x10({r},{q},4),%eax"}[k])
+    return "\n".join(out) + "\n", [{"name": ".text", "raw": False, "data": False}]
